@@ -66,6 +66,11 @@ func hsToken(key []byte, claims []string, exp time.Duration) string {
 	return sign("HS256", key, claimOpts{Exp: exp, Endpoints: claims})
 }
 
+// HSToken signs an HS256 token for checks in other packages.
+func HSToken(key []byte, endpoints []string, exp time.Duration) string {
+	return hsToken(key, endpoints, exp)
+}
+
 func newC10Rig() (*c10rig, error) {
 	key := []byte("c10-shared-secret-0123456789abcdef")
 	ac := auth.Config{HMACSecretKey: string(key)}
